@@ -44,7 +44,8 @@ OPTSETS = {"quick": [["-greedy"], ["-greedy", "-storage"], ["-greedy", "-partiti
 REPLAY_ACTIONS = ["ReplayFromLog", "ReplayBlockOK", "ReplayReject", "ReplayFinish"]
 MODEL_REPLAY_ACTIONS = ["aReplayFromLog", "aReplayBlockOK", "aReplayReject", "aReplayFinish"]
 
-BODIES = ["PUSH 0 ADD PUSH 1 MUL", "DUP1 PUSH 0 MSTORE PUSH 1 PUSH 2 ADD SWAP1 SSTORE", "SWAP1 SWAP1 DUP2 DUP2 ADD SWAP1 POP PUSH 0 ADD",
+BODIES = ["PUSH 20 PUSH 0 MSTORE8 PUSH 0 ADD PUSH 1 PUSH 2 SSTORE", "PUSH 80 PUSH 40 MSTORE PUSH 0 ADD", "CALLER PUSH 1 SSTORE PUSH 1 MUL",
+          "PUSH 0 ADD PUSH 1 MUL", "DUP1 PUSH 0 MSTORE PUSH 1 PUSH 2 ADD SWAP1 SSTORE", "SWAP1 SWAP1 DUP2 DUP2 ADD SWAP1 POP PUSH 0 ADD",
           "PUSH 3 PUSH 4 ADD POP CALLER POP", "DUP2 DUP2 ADD PUSH 0 MSTORE PUSH 1 PUSH 0 ADD PUSH 20 MSTORE POP",
           "CALLER PUSH 0 SSTORE PUSH 1 PUSH 1 SSTORE", "PUSH 1 SWAP1 POP PUSH 0 SLOAD ADD", "ISZERO ISZERO ISZERO",
           "DUP1 SWAP1 POP PUSH 5 PUSH 7 MUL ADD", "DUP3 DUP3 SWAP1 POP POP PUSH 2 PUSH 3 MUL SWAP1 SUB",
@@ -57,12 +58,18 @@ BODIES = ["PUSH 0 ADD PUSH 1 MUL", "DUP1 PUSH 0 MSTORE PUSH 1 PUSH 2 ADD SWAP1 S
 def build_inputs(tier, seed):
     import random
     rnd = random.Random(seed + 11)
-    shapes = [(2, 2), (1, 3), (2, 3)] if tier == "quick" else [(2, 2), (1, 3), (2, 3), (3, 3), (1, 1, 2), (2, 2, 2), (3, 1), (2, 4)]
+    shapes = [(2, 2), (2, 2), (2, 2), (1, 2)] if tier == "quick" else [(2, 2), (1, 3), (2, 3), (3, 3), (1, 1, 2), (2, 2, 2), (3, 1), (2, 4)]
     inputs = []
+    nxt = [0]
+
+    def body():
+        nxt[0] += 1
+        return BODIES[(nxt[0] - 1) % len(BODIES)] if nxt[0] <= len(BODIES) or nxt[0] % 2 else rnd.choice(BODIES)
+    closing = ["ISZERO ISZERO ISZERO", "", "DUP1 SWAP1 POP PUSH 5 PUSH 7 MUL ADD", "PUSH 3 PUSH 4 ADD POP CALLER POP"]
     for i, sh in enumerate(shapes):
-        secs = [[BODIES[(i * 5 + j * 3 + k) % len(BODIES)] if (i + k) % 3 else rnd.choice(BODIES) for k in range(n)] for j, n in enumerate(sh)]
-        if i % 2 == 1:
-            secs[-1][-1] = ""
+        # every section ends with a block without stores: after STOP memory is not observable, so a store body in the
+        # last position could never witness a difference
+        secs = [[body() for k in range(n)] + [closing[(i + j) % len(closing)]] for j, n in enumerate(sh)]
         inputs.append({"name": "synth%d" % i, "doc": pipedoc.make_doc(secs), "synth": True, "desc": secs})
     files = sorted(corpus.example_files(), key=os.path.getsize)[:1 if tier == "quick" else 3]
     for f in files:
@@ -157,18 +164,19 @@ def log_entries(log, names):
     return out
 
 
-def enumerate_mutants(entries, first, last, tag):
-    p = os.path.join(common.workdir(), "logmutate_%s.json" % tag)
-    common.write_json(p, {"entries": entries, "extra": EXTRA_IDS, "first": first, "last": last})
-    r = common.run_tlc("LogMutate", "LogMutate.cfg", {"LOG": p}, workers=1, timeout=1800, tag="lm_" + tag)
+def enumerate_mutants(logs):
+    """logs: [(entries, first, last)] -> [[mutant]] per log, TLCResult (one JVM for all logs)"""
+    p = os.path.join(common.workdir(), "logmutate.json")
+    common.write_json(p, {"logs": [{"entries": e, "first": f, "last": l} for e, f, l in logs], "extra": EXTRA_IDS})
+    r = common.run_tlc("LogMutate", "LogMutate.cfg", {"LOG": p}, workers=1, timeout=3000, heap="4g", tag="lm")
     if not r.ok:
         raise common.MachineryError("LogMutate failed:\n" + r.out[-2000:])
-    seen, muts = set(), []
+    seen, muts = set(), [[] for _ in logs]
     for t in r.tagged("M"):
         k = json.dumps(t)
         if k not in seen:
             seen.add(k)
-            muts.append({"e": t[1], "kind": t[2], "i": t[3], "id": t[4], "e2": t[5], "ids": t[6]})
+            muts[t[1] - 1].append({"e": t[2], "kind": t[3], "i": t[4], "id": t[5], "e2": t[6], "ids": t[7]})
     return muts, r
 
 
@@ -207,6 +215,51 @@ def judge_outcomes(cases):
         raise common.MachineryError("ReplayVerdict TLC run failed:\n" + r.out[-3000:])
     st["states"], st["transitions"] = r.distinct, r.generated
     return {t[1]: t[2] for t in r.tagged("OUTCOME")}, st
+
+
+def run_equiv_few(cases, cap, tag):
+    """equiv.run_equiv with one JVM per core at most (the batches of this property are small: JVM start-up dominates)"""
+    if not cases:
+        return {}, {"states": 0, "transitions": 0, "evaluated": 0, "expected": 0, "jvms": 0, "wall": 0.0}
+    stripped = [{"id": c["id"], "orig": equiv.strip(c["orig"]), "opt": equiv.strip(c["opt"])} for c in cases]
+    shards = common.shard_by_weight(stripped, [equiv.weight(c, cap) for c in cases], min(len(cases), JOBS))
+    envs = []
+    for i, sh in enumerate(shards):
+        p = os.path.join(common.workdir(), "%s_cases_%d.json" % (tag, i))
+        common.write_json(p, {"cap": cap, "seed": common.seed(), "cases": sh})
+        envs.append({"CASES": p})
+    verdicts, stats = {}, {"states": 0, "transitions": 0, "evaluated": 0, "expected": 0, "jvms": len(shards), "wall": 0.0}
+    for r in common.run_tlc_shards("EVMEquiv", "EVMEquiv.cfg", envs, jobs=JOBS, tag=tag):
+        ev = r.tagged("EVALUATED")
+        if not r.ok or not ev or ev[0][1] != ev[0][2]:
+            raise common.MachineryError("EVMEquiv TLC run failed:\n" + r.out[-3000:])
+        stats["evaluated"] += ev[0][1]
+        stats["expected"] += ev[0][2]
+        stats["states"] += r.distinct
+        stats["transitions"] += r.generated
+        stats["wall"] = max(stats["wall"], r.wall)
+        for t in r.tagged("VERDICT"):
+            verdicts.setdefault(t[1], []).append([t[2], t[3]])
+    return verdicts, stats
+
+
+def judge_items(cases):
+    """ReplayItems on (orig, opt) instruction lists -> {id: [position, clause]}"""
+    import re
+    st = {"states": 0, "transitions": 0}
+    if not cases:
+        return {}, st
+
+    def pj(i):
+        return {"op": i["op"], "k": i["k"], "w": i["w"], "idshape": bool(re.fullmatch(r".*_[0-9]+", i["name"]))}
+    p = os.path.join(common.workdir(), "replay_items_%d.json" % len(cases))
+    common.write_json(p, {"cases": [{"id": c["id"], "orig": [pj(i) for i in c["orig"]], "opt": [pj(i) for i in c["opt"]]} for c in cases]})
+    r = common.run_tlc("ReplayItems", "ReplayItems.cfg", {"CASES": p}, workers=1, timeout=1800, tag="ri")
+    cons = r.tagged("CONSUMED")
+    if not r.ok or not cons or cons[0][1] != len(cases):
+        raise common.MachineryError("ReplayItems TLC run failed:\n" + r.out[-3000:])
+    st["states"], st["transitions"] = r.distinct, r.generated
+    return {t[1]: [t[2], t[3]] for t in r.tagged("VERDICT")}, st
 
 
 def changed_blocks(doc_in, doc_out):
@@ -266,32 +319,31 @@ def run(tier):
     # (G) mutants of every recorded log
     gen_stats = [0, 0]
     mutants = []                      # {pair, m, log}
-    budget = 110 if tier == "quick" else 1500
-    with cf.ThreadPoolExecutor(max_workers=JOBS) as ex:
-        futs = {}
-        for i, (inp, opts) in enumerate(pairs):
-            log = rts[i]["log"]
-            if not log:
+    budget = 80 if tier == "quick" else 150
+    todo = []
+    for i, (inp, opts) in enumerate(pairs):
+        log = rts[i]["log"]
+        if not log or (tier == "thorough" and i % 3):      # thorough: every third (input, options) pair is mutated
+            continue
+        entries = log_entries(log, names[i])
+        last = len(entries) if inp["synth"] else min(len(entries), 2 if tier == "quick" else 14)
+        todo.append((i, entries, last))
+    allm, r = enumerate_mutants([(e, 1, l) for _, e, l in todo])
+    gen_stats = [r.distinct, r.generated]
+    for (i, entries, _), muts in zip(todo, allm):
+        seen = {json.dumps(rts[i]["log"])}
+        mine = []
+        for m in muts:
+            ml = apply_mutant(rts[i]["log"], entries, m)
+            k = json.dumps(ml)
+            if k in seen:
                 continue
-            entries = log_entries(log, names[i])
-            last = len(entries) if tier == "thorough" or inp["synth"] else min(len(entries), 2)
-            if tier == "thorough" and not inp["synth"]:
-                last = min(len(entries), 14)
-            futs[i] = (entries, ex.submit(enumerate_mutants, entries, 1, last, "p%d" % i))
-        for i, (entries, fu) in futs.items():
-            muts, r = fu.result()
-            gen_stats[0] += r.distinct
-            gen_stats[1] += r.generated
-            seen = {json.dumps(rts[i]["log"])}
-            mine = []
-            for m in muts:
-                ml = apply_mutant(rts[i]["log"], entries, m)
-                k = json.dumps(ml)
-                if k in seen:
-                    continue
-                seen.add(k)
-                mine.append({"pair": i, "m": m, "log": ml})
-            mutants += corpus.sample(mine, budget, seed + i)
+            seen.add(k)
+            mine.append({"pair": i, "m": m, "log": ml})
+        # the few structural mutants are all kept; the many substitutions / insertions are sampled
+        few = [x for x in mine if x["m"]["kind"] not in ("subst", "insert")]
+        many = [x for x in mine if x["m"]["kind"] in ("subst", "insert")]
+        mutants += few + corpus.sample(many, max(10, budget - len(few)), seed + i)
     n_enumerated = len(mutants)
     t_gen = time.time() - t0
 
@@ -321,10 +373,10 @@ def run(tier):
             tcases.append(pipetrace.make_case(cid, r, pairs[pi][0]["doc"], None, known=True))
             tmeta.append({"kind": kind, "j": j, "pair": pi, "r": r, "via": "worker"})
     # (D) a sample of the mutants, and all mutants of the real files, through the command line too
-    n_cli = 24 if tier == "quick" else 300
+    n_cli = 12 if tier == "quick" else 300
     synth_m = [j for j, mu in enumerate(mutants) if pairs[mu["pair"]][0]["synth"]]
     real_m = [j for j, mu in enumerate(mutants) if not pairs[mu["pair"]][0]["synth"]]
-    chosen = corpus.sample(synth_m, n_cli, seed) + corpus.sample(real_m, 8 if tier == "quick" else 120, seed)
+    chosen = corpus.sample(synth_m, n_cli, seed) + corpus.sample(real_m, 4 if tier == "quick" else 120, seed)
 
     def cli_mut(j):
         mu = mutants[j]
@@ -348,7 +400,9 @@ def run(tier):
 
     # (V)
     classes, rv_st = judge_outcomes(outcomes)
+    t_rv = time.time() - t0
     tverd, tends, tst = pipetrace.run_traces(tcases, jobs=JOBS, tag="c11trace")
+    t_trace = time.time() - t0
     taken = set()
     for e in tends.values():
         taken.update(e[3])
@@ -356,8 +410,15 @@ def run(tier):
     eq_cases, eq_meta, seen_eq = [], [], {}
     n_acc = n_rej = 0
 
-    def add_eq(doc_in, doc_out, info):
+    def add_eq(doc_in, doc_out, info, ref_out=None):
+        """blocks of an accepted mutant's output that differ from the input block; blocks that equal the output of the
+        untampered run are that run's business (C01), not the mutation's"""
+        untouched = set()
+        if ref_out is not None:
+            untouched = {json.dumps([pipedoc.proj_items(b), pos]) for pos, _, b in changed_blocks(doc_in, ref_out)}
         for pos, a, b in changed_blocks(doc_in, doc_out):
+            if json.dumps([pipedoc.proj_items(b), pos]) in untouched:
+                continue
             pa, pb = pipedoc.proj_items(a), pipedoc.proj_items(b)
             k = json.dumps([pa, pb])
             if k in seen_eq:
@@ -366,6 +427,13 @@ def run(tier):
             seen_eq[k] = len(eq_cases)
             eq_cases.append({"id": len(eq_cases) + 1, "orig": pa, "opt": pb})
             eq_meta.append(dict(info, block=pos, orig=pipedoc.block_text(a), emitted=pipedoc.block_text(b), count=1))
+    ref_docs = {}
+    for i, a in enumerate(rts):
+        if a["out1"] is not None:
+            try:
+                ref_docs[i] = json.loads(a["out1"])
+            except ValueError:
+                pass
     groups = {}
 
     def flag(key, clause, example):
@@ -389,7 +457,7 @@ def run(tier):
             continue
         if cl == "accepted":
             n_acc += 1
-            add_eq(inp["doc"], m["r"]["out_doc"], dict(info, log=mu["log"], doc=inp["doc"] if inp["synth"] else inp["desc"]))
+            add_eq(inp["doc"], m["r"]["out_doc"], dict(info, log=mu["log"], doc=inp["doc"] if inp["synth"] else inp["desc"]), ref_docs.get(m["pair"]))
         elif cl == "rejected":
             n_rej += 1
         else:
@@ -413,7 +481,7 @@ def run(tier):
         if cl == "accepted":
             cli_acc += 1
             try:
-                add_eq(inp["doc"], json.loads(m["b"]["out2"]), dict(info, log=mu["log"], doc=inp["doc"] if inp["synth"] else inp["desc"]))
+                add_eq(inp["doc"], json.loads(m["b"]["out2"]), dict(info, log=mu["log"], doc=inp["doc"] if inp["synth"] else inp["desc"]), ref_docs.get(m["pair"]))
             except ValueError:
                 flag("replay wrote an unreadable output", "output is not JSON", dict(info, log=mu["log"]))
         elif cl == "rejected":
@@ -432,12 +500,19 @@ def run(tier):
             flag("%s [%s %s]" % (cl, inp["name"], " ".join(opts)), cl,
                  {"input": inp["name"], "options": opts, "rc1": rts[i]["rc1"], "rc2": rts[i]["rc2"], "err": rts[i]["err1"] or rts[i]["err2"],
                   "doc": inp["doc"] if inp["synth"] else inp["desc"], "log": rts[i]["log"], "via": "cli"})
-    verdicts, est = equiv.run_equiv(eq_cases, cap, jobs=JOBS, tag="c11eq")
+    t_pre = time.time() - t0
+    verdicts, est = run_equiv_few(eq_cases, cap, "c11eq")
+    t_eq = time.time() - t0
     undecided = 0
+    iverd, ist = judge_items(eq_cases)
     for c, m in zip(eq_cases, eq_meta):
         cl = equiv.classify(verdicts.get(c["id"], []))
-        if cl[0] == "violates":
-            flag("replay of a mutated log emits a distinguishable block (%s, clause %s)" % (m["mutation"]["kind"] if isinstance(m["mutation"], dict) else "-", cl[1]),
+        if c["id"] in iverd:
+            flag("replay accepts a foreign id and emits it verbatim as an instruction", "TamperedLogErrorsOrEquivalent",
+                 dict(m, witness_position=iverd[c["id"]][0], clause=iverd[c["id"]][1]))
+        elif cl[0] == "violates":
+            what = "memory/storage contents" if cl[1] in ("mem", "sto") else cl[1]
+            flag("replay accepts a mutated log and emits a distinguishable block: " + what,
                  "TamperedLogErrorsOrEquivalent", dict(m, witness_grid_state=cl[2], clause=cl[1], distinguishing_states=cl[3]))
         elif cl[0] == "undecided":
             undecided += 1
@@ -474,8 +549,8 @@ def run(tier):
     for i, a in list(enumerate(rts))[:2]:
         samples.append({"roundtrip": {"input": pairs[i][0]["name"], "options": pairs[i][1], "log": a["log"] if pairs[i][0]["synth"] else "(%d entries)" % len(a["log"] or {}),
                                       "sha256_out1": sha(a["out1"])[:16], "sha256_out2": sha(a["out2"])[:16]}})
-    cov = {"states": model["states"] + gen_stats[0] + rv_st["states"] + tst["states"] + est["states"],
-           "transitions": model["transitions"] + gen_stats[1] + rv_st["transitions"] + tst["transitions"] + est["transitions"],
+    cov = {"states": model["states"] + gen_stats[0] + rv_st["states"] + tst["states"] + est["states"] + ist["states"],
+           "transitions": model["transitions"] + gen_stats[1] + rv_st["transitions"] + tst["transitions"] + est["transitions"] + ist["transitions"],
            "traces_validated_against_impl": len(tcases), "samples": samples,
            "evaluations": len(outcomes), "distinct_nontrivial": n_enumerated,
            "rule": "one evaluation = one replay run (command line or worker process) of a (input, options, log); distinct_nontrivial = distinct mutated "
@@ -492,7 +567,8 @@ def run(tier):
            "violation_classes": {k: g["count"] for k, g in groups.items()},
            "known_findings_hit": out["known_hit"], "new_violations": len(out["new"]),
            "exhaustive": False, "roundtrip_wall_s": round(t_rt, 1), "generate_wall_s": round(t_gen - t_rt, 1),
-           "drive_wall_s": round(t_drive - t_gen, 1), "validate_wall_s": round(time.time() - t0 - t_drive, 1)}
+           "drive_wall_s": round(t_drive - t_gen, 1), "validate_wall_s": round(time.time() - t0 - t_drive, 1),
+           "verdict_tlc_wall_s": round(t_rv - t_drive, 1), "trace_tlc_wall_s": round(t_trace - t_rv, 1), "equiv_tlc_wall_s": round(t_eq - t_pre, 1)}
     return {"level": "model_checking", "coverage": cov, "violations": out, "wall": time.time() - t0,
             "assumptions": [
                 "equivalence of an accepted mutant's blocks is decided on the grid of boundary machine states (EVMEquiv), not on all 2^256 states; "
@@ -533,7 +609,7 @@ def replay(path):
         for pos, x, y in changed_blocks(doc, json.loads(b["out2"])):
             cases.append({"id": len(cases) + 1, "orig": pipedoc.proj_items(x), "opt": pipedoc.proj_items(y)})
             texts.append((pos, pipedoc.block_text(x), pipedoc.block_text(y)))
-        v, _ = equiv.run_equiv(cases, 256, jobs=JOBS, tag="c11replay")
+        v, _ = run_equiv_few(cases, 256, "c11replay")
         for c, t in zip(cases, texts):
             cl = equiv.classify(v.get(c["id"], []))
             print("block %d: %s\n   ->    %s\n   EVMEquiv: %r" % (t[0], t[1], t[2], cl))
@@ -579,7 +655,7 @@ def selftest():
             it["name"], it["value"] = "PUSH", "7"
             break
     cases = [{"id": i + 1, "orig": pipedoc.proj_items(a), "opt": pipedoc.proj_items(b)} for i, (_, a, b) in enumerate(changed_blocks(doc, out_doc))]
-    verd, _ = equiv.run_equiv(cases, 48, jobs=2, tag="c11selfeq")
+    verd, _ = run_equiv_few(cases, 48, "c11selfeq")
     found = [equiv.classify(verd.get(c["id"], [])) for c in cases]
     print("selftest C11: output with one operand changed -> %r" % (found,))
     ok = ok and any(f[0] == "violates" for f in found)
